@@ -13,7 +13,7 @@ def features(r):
     if ev and ev[0] in (1, 2):
         f["op"] = ev[2][0]
         f["cb"] = ev[2][1] if ev[2][0] == 0xcb else None
-        pre, post = ev[1], ev[-2]
+        pre, post = ev[1], (ev[4] if ev[0] == 1 else ev[-2])
         f["regs_differ"] = pre[:9] != post[:9]
     return f
 
@@ -25,8 +25,12 @@ def describe(r):
     if ev[0] in (1, 2):
         ob = ev[2]
         name = ("CB %02X" % ob[1]) if ob[0] == 0xcb else ("%02X %02X %02X" % tuple(ob))
-        return ("instruction %s from registers %s: the real CPU produced registers %s in %d cycles with bus log %s - not SM83!Exec's result"
-                % (name, ev[1], ev[-2], ev[-1], json.dumps(ev[3])[:300]))
+        post, n = (ev[4], ev[5]) if ev[0] == 1 else (ev[-2], ev[-1])
+        run_state = ""
+        if ev[0] == 1 and len(ev) >= 7 and ev[6] != (1 if ob[0] == 0x76 else 0):
+            run_state = " and was left %s" % "+".join(w for b, w in ((1, "halted"), (2, "stopped"), (4, "with the halt bug armed")) if ev[6] & b or (b == 1 and ev[6] == 0))
+        return ("instruction %s from registers %s: the real CPU produced registers %s in %d cycles%s with bus log %s - not SM83!Exec's result"
+                % (name, ev[1], post, n, run_state, json.dumps(ev[3])[:300]))
     return "daa.csv row %s disagrees with SM83!Daa" % ev[1:]
 
 
@@ -44,7 +48,9 @@ def run_cpu(run, fams, rule, mode, mc=True):
     run.cov["traces_validated_against_impl"] += len(accepted)
 
     def key(e, s):
-        if e[0] in (1, 2):
+        if e[0] == 1:
+            return [e[0], e[2][0], e[2][1] if e[2][0] == 0xcb else None, e[1][:2], e[4][:2], e[5]]
+        if e[0] == 2:
             return [e[0], e[2][0], e[2][1] if e[2][0] == 0xcb else None, e[1][:2], e[-2][:2], e[-1]]
         return e
     run.count_distinct(files, key=key)
@@ -62,6 +68,9 @@ def rom_traces(run, mode):
     """Windows of the repository's own test ROMs, executed on the full machine, validated unit by unit against
     IntCtl (which unit had to happen) and SM83!Exec (effect / cycles / access timing, by MODE)."""
     files, _ = run.gen("int", fam="rom")
+    # instructions in the CPU states only a real HALT produces: every opcode after HALT with the halt bug armed, after waking, after idling
+    hfiles, _ = run.gen("int", fam="haltop")
+    files = files + hfiles
     accepted, ids = run.validate(files, INT_SPECDIR, "Int_Trace.tla", "Int_Trace.cfg", env={"MODE": mode}, heap="6g")
     run.cov["traces_validated_against_impl"] += len(accepted)
     run.cov["rom_windows_validated"] = len(accepted)
@@ -73,15 +82,19 @@ def rom_traces(run, mode):
     run.cov["events_validated"] += n
     run.cov["evaluations"] += n
     run.cov["rule"] += (" rom = windows of consecutive units of the repository's test ROMs (blargg cpu_instrs / instr_timing / mem_timing / halt_bug, mooneye interrupt tests) on the full machine with the hardware "
-                        "raising interrupts, each unit validated against IntCtl and SM83!Exec.")
+                        "raising interrupts, each unit validated against IntCtl and SM83!Exec; "
+                        "haltop = HALT followed by every defined opcode x IME x {nothing pending, halt bug, request after 0-8 idle cycles}, same validation.")
 
     def feats(r):
         ev = r.get("event")
-        return {"family": "rom", "op": ev[1][0] if ev else None}
+        return {"family": "rom" if "rom" in r["id"] else "haltop", "op": ev[1][0] if ev else None}
 
     def desc(r):
         ev = r.get("event")
         sc = r["scenario"]
+        if "rom" not in r["id"]:
+            import int_common
+            return int_common.describe(r) + " (MODE %s)" % mode
         return "ROM %s window (skip %s): unit %d at PC=%04X bytes %s -> registers %s in %d cycles is not a step of Int_Trace (MODE %s) from [%s]" % (
             os.path.basename(str(sc["reset"][3])), sc["reset"][4], r["index"], ev[0][9] if ev else 0, ev[1] if ev else None, ev[3] if ev else None, ev[4] if ev else 0, mode, r.get("state"))
     run.triage("int", files, accepted, ids, INT_SPECDIR, "Int_Trace.tla", "Int_Trace.cfg", "Int_TraceDiag.cfg", feats, describe=desc, env={"MODE": mode})
